@@ -31,18 +31,18 @@ def state_verdicts(want_entry: dict[str, Any], obs: dict[str, Any]) -> Iterator[
                f"ctx.state({tname}) -> {got!r}, reference {want!r}")
         if tname not in obs.get("with_default", {}):
             continue
-        gotd, duid = obs["with_default"][tname]
+        gotd, duid, dname = obs["with_default"][tname]
         if want[0] == "val":
             okd = gotd[0] == "val" and gotd[1][0] == tname and gotd[1][1] in want[1]
             wkind = "supplier"
         elif want_entry["inside"]:
-            okd = gotd == ("val", (tname, duid))
-            wkind = "explicit-default"
+            okd = gotd == ("val", (dname, duid))
+            wkind = "explicit-default" if dname == tname else "explicit-default-of-another-class"
         else:
             okd = gotd == ("exc", "MissingContext")
             wkind = "MissingContext"
         gk = gotd[1] if gotd[0] == "exc" else ("constructed-or-cached" if gotd[0] == "val" and gotd[1][1] == 0 else ("explicit-default" if gotd[0] == "val" and gotd[1][1] == duid else "other"))
-        yield ("default", okd, {"expected": wkind, "observed": gk}, f"ctx.state({tname}, default=<uid {duid}>) -> {gotd!r}, reference {want!r}")
+        yield ("default", okd, {"expected": wkind, "observed": gk}, f"ctx.state({tname}, default=<{dname} uid {duid}>) -> {gotd!r}, reference {want!r}")
 
 
 def scope_token(obs: dict[str, Any], names: list[str]) -> tuple[str, Any]:
